@@ -6,12 +6,13 @@ SEL_OPS = ["all", "none", "clone_single", "fully_random", "without_rep", "roulet
            "linear_rank", "exp_rank", "iwo", "de_rand", "de_best", "de_ctb"]
 HELPER_OPS = ["weights", "reverse_rank"]
 REPL_OPS = ["discard", "generational", "merge", "mu_plus_lambda", "random_repl", "keep_better"]
-SA_OPS = ["sa_accept", "cool"]
+SA_OPS = ["sa_accept", "cool", "nested", "update_best"]
+NO_BEST = -9
 
 SEL_PROPS = ("SourceUntouched PushesExactlyOne CopiesOnly CountAsRequested AllNoneDistinct "
              "ErrorsAsDocumented TournamentWhole WeightsMonotone IwoMonotone CoolOnce")
 REPL_PROPS = "TwoBecomeOne OnlyFromBoth ContentAsNamed UnequalSizesErr CoolOnce"
-SA_PROPS = "SurvivorOnly Metropolis CoolOnce"
+SA_PROPS = "SurvivorOnly Metropolis CoolOnce BestApart"
 
 # rank -> objective value tables used when TLC-enumerated cases are replayed (ranks 0..5):
 # all positive / mixed with zero / all negative / non-positive ending in zero
@@ -41,7 +42,7 @@ CFG_TRACE = ("SPECIFICATION TraceSpec\nCONSTANTS\n  Ops = {}\n  LoadStacks = {}\
              "POSTCONDITION TraceDone\nCHECK_DEADLOCK FALSE\n")
 
 DESCRIBE = {
-    "state": lambda r: [r["stack"], r["temp"]],
+    "state": lambda r: [r["stack"], r["temp"], r.get("best", NO_BEST)],
     "act": lambda r: r["act"],
     "is_reset": lambda r: r["act"]["op"] == "reset",
     # set-up calls are not cases; a case is non-trivial if the component changed the stack /
@@ -52,7 +53,7 @@ DESCRIBE = {
 
 
 def parse_cases(path):
-    """CASE lines of an export run -> list of {stack, act}."""
+    """CASE lines of an export run -> list of {stack, best, act}."""
     pre = '<<"CASE", '
     out = []
     with open(path) as f:
@@ -62,8 +63,8 @@ def parse_cases(path):
     return out
 
 
-def load_act(stack):
-    return {"op": "load", "n": 0, "k": 0, "st": stack, "pc": "-", "lo": 0, "hi": 0, "last": 0}
+def load_act(stack, best=NO_BEST):
+    return {"op": "load", "n": 0, "k": 0, "st": stack, "pc": "-", "lo": 0, "hi": 0, "last": 0, "b": best}
 
 
 def hdr(seed, vm=0, off="0.1", base="0.5", t0="2.0", alpha="0.9", cell_n=0):
@@ -72,30 +73,32 @@ def hdr(seed, vm=0, off="0.1", base="0.5", t0="2.0", alpha="0.9", cell_n=0):
 
 
 def scenarios_from_cases(ctx, cases, name, variants, t0_for=None):
-    """One run per (loaded stack, variant): load, call, load, call, ...  Variant v fixes the value map,
-    the proportional-weight offset, the exponential-rank base and the RNG seed."""
+    """One run per (loaded stack and best, variant): load, call, load, call, ...  Variant v fixes the value map,
+    the proportional-weight offset, the exponential-rank base and the RNG seed.  SA (t0_for given): one run per
+    probability class; t0_for(pc, nested) -> (t_0 of the run's own acceptance, t_0 of an SA step nested in a Scope)."""
     by_stack = {}
     for c in cases:
-        by_stack.setdefault(json.dumps(c["stack"]), []).append(c["act"])
+        by_stack.setdefault(json.dumps([c["stack"], c.get("best", NO_BEST)]), []).append(c["act"])
     path = os.path.join(ctx.work, name + ".scen.ndjson")
     nruns = ncases = 0
     with open(path, "w") as f:
         for sk in sorted(by_stack):
-            stack = json.loads(sk)
+            stack, best = json.loads(sk)
             for v in range(variants):
                 groups = [by_stack[sk]]
                 if t0_for:     # SA: the temperature decides the probability class; one run per class
-                    groups = [[a for a in by_stack[sk] if a["pc"] == pc] for pc in ("-", "zero", "mid", "one")]
+                    groups = [[a for a in by_stack[sk] if a["pc"] == pc and (a["op"] == "nested") == nested]
+                              for pc in ("-", "zero", "mid", "one") for nested in (False, True)]
                 for acts in groups:
                     if not acts:
                         continue
                     seq = []
                     for a in acts:
-                        seq += [load_act(stack), a]
+                        seq += [load_act(stack, best), a]
                     h = hdr(ctx.seed * 1000003 + nruns, vm=v, off=OFFSETS[v % len(OFFSETS)],
                             base=BASES[v % len(BASES)])
                     if t0_for:
-                        h["t0"] = t0_for(acts[0]["pc"])
+                        h["t0"], h["t0_in"] = t0_for(acts[0]["pc"], acts[0]["op"] == "nested")
                     f.write(json.dumps({"run": nruns, "hdr": h, "acts": seq}) + "\n")
                     nruns += 1
                     ncases += len(acts)
